@@ -845,6 +845,7 @@ phylip_check_sequential_unknown(ESL_BUFFER *bf, int *ret_namewidth)
   esl_pos_t n;               // length of current line in input buffer
   int       i, j, k;
   int       w;               // name width we determine
+  int       firstns;         // position of the first non-whitespace char on line 1; L1 if there is none
   int       len2;            // alen of subsequent seqs in file
   int       status;
   
@@ -869,6 +870,8 @@ phylip_check_sequential_unknown(ESL_BUFFER *bf, int *ret_namewidth)
   for (i = n-1, r = 0; i >= 0; i--)
     rth[i] = ( strchr(eslMSAFILE_PHYLIP_LEGALSYMS, p[i]) != NULL ? ++r : 0 );
   L1 = n;
+  for (firstns = 0; firstns < L1; firstns++)         // remember where the name on line 1 could start: <p> moves on below
+    if (! isspace(p[firstns])) break;
 
   /* rth[i] =      0 if line1[i] is not a legal seq char
    *          else # of legal chars in line1[i..L1-1]
@@ -893,9 +896,7 @@ phylip_check_sequential_unknown(ESL_BUFFER *bf, int *ret_namewidth)
   for (w = 0; w < L1; w++)                           // find the leftmost seq residue
     if (rth[w] == a) break;
   if (w == L1) { status = eslFAIL; goto ERROR; }
-  for (i = 0; i < w; i++)                            // make sure there's a name of some sort
-    if (! isspace(p[i])) break;
-  if ( i == w) { status = eslFAIL; goto ERROR; }
+  if (firstns >= w) { status = eslFAIL; goto ERROR; } // make sure there's a name of some sort, on line 1 (<p> may be a later, shorter line by now)
   /* Now we "know" the name width is w. */
 
   /* Check that the rest of the sequences (up to 100 of them) are consistent w/ that. */
